@@ -1335,6 +1335,20 @@ fn get_pendding_opps_since_from_sync(since: u64, dbs: &Arc<Databases>) -> Vec<St
     vec_ops_to_process.sort_by(|a, b| a.opp_position.cmp(&b.opp_position)); //sort by insert order
     for op_record in vec_ops_to_process {
         log::debug!("{}", op_record.to_string());
+        // A record can outlive what it refers to (a database that was never snapshotted is gone
+        // after a restart): skip it instead of taking the supervisor down
+        let record_db_exists = id_name_db_map
+            .get(&op_record.db)
+            .map(|name| dbs_map.contains_key(name))
+            .unwrap_or(false);
+        let record_key_exists = match op_record.opp {
+            ReplicateOpp::Update | ReplicateOpp::Remove => id_keys_map.contains_key(&op_record.key),
+            _ => true,
+        };
+        if !record_db_exists || !record_key_exists {
+            log::warn!("Skipping oplog record that no longer decodes: {}", op_record.to_string());
+            continue;
+        }
         //@todo sort by key to optmize speed
         let opp = match op_record.opp {
             ReplicateOpp::Update => {
